@@ -8,7 +8,7 @@ use xeh::prelude::*;
 pub const DEF: PropDef = PropDef {
     id: "C14",
     rule: "programs = control-flow backbone + snippets (builders, foreach, let, locals, late words, cursor reads, recursion, meta blocks) + stack flooders (unbox, loops pushing, recursion, nested builders), heap growers (var, let, API defvar) and non-terminating loops, on an interpreter that already holds a prelude. \
-An unlimited twin is compiled and single-stepped, recording after every step the data-stack length, heap length and instruction meter; this gives, independently of the limit checks, the exact need of the program. Reverse recording is on in 1 case of 3. A limit (N, S or H) is then drawn around that need (need, need+-1, 0, 1, far above) and the program is driven by eval, compile+run and compile+step. \
+An unlimited twin is compiled and single-stepped, recording for every step the highest data-stack length it reached (hook verif_take_stack_peak), the heap length and the instruction meter; this gives, independently of the limit checks, the exact need of the program. Reverse recording is on in 1 case of 3. A limit (N, S or H) is then drawn around that need (need, need+-1, 0, 1, far above) and the program is driven by eval, compile+run and compile+step. \
 Oracle: hard bound after every step (stack <= S, heap <= H, successful steps since the limit was set <= N); exact boundary - the limited run succeeds with the twin's final state iff the limit covers the need, otherwise it fails with the matching limit error, in the stepped run exactly at the step the twin predicts and with the machine state the twin had before that step; \
 while an instruction limit is exhausted and not raised, further submissions and resume calls execute nothing; recoverable - after an instruction stop, raising the limit and run() finishes with exactly the twin's final state; after a stack/heap stop, raising the limit and evaluating fresh probes (definition, variable, builder, meta block, arithmetic) gives their normal results. Limits are also changed between evaluations on one interpreter. \
 Non-trivial = the limit lies within +-1 of the need, or is hit inside a call / loop / builder / meta block; distinct = hash of program, limit kind and value",
@@ -107,11 +107,18 @@ fn run_twin(base: &Xstate, src: &str) -> Result<Option<Twin>, String> {
     xs.set_stack_limit(None).unwrap();
     xs.set_heap_limit(None).unwrap();
     let before = xs.verif_counts();
+    let _ = xs.verif_take_stack_peak();
     let r = guard(|| xs.compile(src))?;
     if r.is_err() {
         return Ok(None);
     }
-    let mut counts = vec![before, xs.verif_counts()];
+    // (the stack entry is the highest length reached during the step - a native word may push an intermediate
+    // value before it pops its operands - not just the length the step leaves)
+    let peaked = |xs: &mut Xstate| {
+        let (_, h, m) = xs.verif_counts();
+        (xs.verif_take_stack_peak(), h, m)
+    };
+    let mut counts = vec![before, peaked(&mut xs)];
     let mut finished = true;
     while xs.is_running() {
         if counts.len() > CAP + 1 {
@@ -122,7 +129,7 @@ fn run_twin(base: &Xstate, src: &str) -> Result<Option<Twin>, String> {
         if r.is_err() {
             return Ok(None); // only programs that run cleanly without limits
         }
-        counts.push(xs.verif_counts());
+        counts.push(peaked(&mut xs));
     }
     Ok(Some(Twin { counts, finished, final_sections: sections(&xs), final_stdout: xs::take_stdout(&mut xs), final_vars: xs::vars(&xs) }))
 }
@@ -175,7 +182,7 @@ pub fn case(ch: &mut Choices, ctx: &CaseCtx) -> CaseOut {
     let big = ctx.tier_thorough;
     // ---- program ---------------------------------------------------------------------
     let with_meta = ch.chance(1, 4);
-    let p = ext::generate(ch, &ext::ExtOpts { meta: with_meta, failing: false, max_items: if big { 6 } else { 3 }, backbone_nodes: if big { 30 } else { 12 } });
+    let p = if ch.chance(1, 6) { ext::dictionary(ch, if big { 8 } else { 4 }) } else { ext::generate(ch, &ext::ExtOpts { meta: with_meta, failing: false, max_items: if big { 6 } else { 3 }, backbone_nodes: if big { 30 } else { 12 } }) };
     let mut items: Vec<String> = vec![p.source.clone()];
     let mut feats: Vec<&'static str> = p.features.clone();
     let which = [Lim::Insn, Lim::Stack, Lim::Heap][ch.weighted(&[4, 4, 3])];
